@@ -521,6 +521,7 @@ Definition menu (c : Z) : option fld :=
   else if c =? 42 then Some (pod_fld 0 2)                                 (* [u16; 0] *)
   else if c =? 43 then Some (mk 8 8 false false true false false VAny)    (* *const u8: pointer-sized and -aligned whatever it points to; bytemuck: Zeroable only *)
   else if c =? 44 then Some (mk 8 8 false false true false false VAny)    (* *mut [u8; 2] *)
+  else if c =? 45 then Some (mk 8 1 true false false false false VAny)    (* PackedValueChecked<Padded>, Padded = repr(C) {u8, u32}: padding inside, so NOT NoUninit - and the wrapper's CheckedBitPattern impl asks for T: NoUninit as well *)
   else None.
 
 Definition as_param (f : fld) : fld :=
